@@ -28,7 +28,12 @@ def _blocked(*a, **k):
 
 
 def block_network():
+    """an escaped request must cost milliseconds: no name resolution, no retry back-off sleeps"""
     socket.getaddrinfo = _blocked
+    import urllib3.util.retry as ur
+
+    ur.Retry.sleep = lambda self, response=None: None
+    ur.Retry.get_backoff_time = lambda self: 0
 
 
 def hx(s):
